@@ -419,6 +419,8 @@ def run(ctx):
 
 def replay(ctx, rp):
     case = rp["case"]["case"]
+    if rp["case"].get("stream") == "f2_compound":
+        return common.replay_by_rerun(ctx, rp, lambda c: SF2C.run(c, [case]))
     if rp["case"].get("stream") == "f2":
         (im,) = common.pmap(impl_f2, [case], chunk=1)
         (mo,) = ctx.drv.run([{"prop": "F2", "op": "portrefs", "ports": case["ports"], "conns": case["conns"], "nsig": case["nsig"]}])
